@@ -35,7 +35,7 @@ var c20Elems = []string{carCT, "*/*", "text/html", "application/json", carCT + "
 	" " + carCT + " ", "\t*/*", carCT + "+json", "*/*x", "APPLICATION/VND.IPLD.CAR", "*", "", ";" + carCT, carCT + " ;q=1", "text/*",
 	carCT + ";q", "*/*;q", carCT + ";", carCT + ";q=0", "*/*;q=0", carCT + ";=", carCT + ";q=;v", "text/html;q", ";", ";q"}
 var c20CTs = []string{"-", carCT, "application/json", carCT + "; version=1", carCT + "x", "application/car", " " + carCT}
-var c20Bodies = []string{"valid", "valid0", "empty", "garbage", "nonmsg", "noroot", "missinginv", "validtrunc", "validbadhash", "validbadcid"}
+var c20Bodies = []string{"valid", "valid0", "empty", "garbage", "nonmsg", "noroot", "missinginv", "validtrunc", "validbadhash", "validbadcid", "twocap", "zerocap"}
 
 func genC20(cfg Config, emit Emit) error {
 	var accepts []string
@@ -81,6 +81,9 @@ func genC20(cfg Config, emit Emit) error {
 	}
 	for _, acc := range []string{"-", carCT, "*/*", "text/html"} {
 		emit("handle", []string{hexTok([]byte(carCT)), hexTok([]byte(strings.TrimPrefix(acc, "-"))), "big"}, "ct-car/big", true)
+	}
+	for st := 200; st <= 599; st++ {
+		emit("clientexec", []string{itoa(st)}, "client-execute", st != 200)
 	}
 	for st := 200; st <= 599; st++ {
 		for _, b := range []string{"text", "car"} {
@@ -156,6 +159,17 @@ func c20Setup() *c20Fixture {
 		big.Attach(rawCborBlock(append([]byte{0x5a, 0x00, 0x90, 0x00, 0x00}, make([]byte, 9437184)...)))
 		bmsg, _ := message.Build([]invocation.Invocation{big}, nil)
 		f.bodies["big"] = enc([]ipld.Link{bmsg.Root().Link()}, bmsg.Blocks())
+		// acceptable requests whose invocation the server answers with an error receipt: 200 all the same
+		for name, caps := range map[string][]ucan.Capability[NbMap]{
+			"twocap":  {ucan.NewCapability("test/run", alice.DID().String(), NbMap{F: map[string]any{}}), ucan.NewCapability("test/run", alice.DID().String(), NbMap{F: map[string]any{"f1": int64(1)}})},
+			"zerocap": {},
+		} {
+			d, err := delegation.Delegate(alice, svc, caps, delegation.WithNoExpiration(), delegation.WithNonce(name))
+			if err == nil {
+				m, _ := message.Build([]invocation.Invocation{d}, nil)
+				f.bodies[name] = enc([]ipld.Link{m.Root().Link()}, m.Blocks())
+			}
+		}
 		c20Fix = f
 	})
 	return c20Fix
